@@ -23,6 +23,12 @@ claim("C16", "exploration",
   "deterministic simulation: tape-driven WASI histories vs executable POSIX reference model, FS fault injection (short read, torn write, EIO/EINTR/EAGAIN/EACCES), tape shrinking + replay",
   "DESIGN.md §5 C16")
 
+claim("C17", "exploration",
+  "Seeded simulation of WASI histories against a pre-populated tree mounted read-only three ways (WithReadOnlyDirMount, WithFSMount(os.DirFS), WithFSMount(MapFS)): every mutating call and path_open over the full cross product of open flags, descriptor flags and rights; invariant after every single call: a recursive snapshot (names, types, modes, sizes, SHA-256, mtime, ctime, link count) equals the initial one; liveness half: plain read-only opens, reads, readdir and stat keep returning the model's content. Sampling, not proof.",
+  "Trusted: the snapshot function and the host FS reporting ctime/mtime faithfully; atime excluded; errno of refused mutations is not judged.",
+  "deterministic simulation: tape-driven adversarial WASI histories over read-only mounts, snapshot invariant after every step, model-checked reads, tape shrinking + replay",
+  "DESIGN.md §5 C17")
+
 def main():
     m = dict(version=1,
       setup_cmd="./setup.sh",
